@@ -12,6 +12,7 @@ CONSTANTS
   MaxCancel = 1
   MaxSpur = 1
   Endings = {}
+  SeiSet = {"never"}
   Dev = {}
 VIEW view
 CONSTRAINT Proviso
